@@ -1737,6 +1737,10 @@ class Interp:
                 return Unknown(f"{_sym(c)}[{'' if lo is None else _sym(lo)}:{'' if hi is None else _sym(hi)}]")
             return c[lo:hi:stp]
         k = self.eval(e.slice, env, module)
+        return self._getitem(c, k, f"{module.rel}:{e.lineno}")
+
+    def _getitem(self, c, k, at="?"):
+        """c[k] for an index or key (not a slice)"""
         if isinstance(c, Unknown):
             return Unknown(f"{c.sym}[{k.sym if isinstance(k, Unknown) else k!r}]")
         if isinstance(c, ClassRef) and c.ci.is_enum():
@@ -1784,7 +1788,7 @@ class Interp:
             return self.call_fi(self.p.find_method(c.cls, "__getitem__"), [c, k], {})
         if isinstance(c, ExtRef):
             return ExtRef(f"{c.name}[…]")
-        raise Imprecise(f"subscript of {c!r} at {module.rel}:{e.lineno}")
+        raise Imprecise(f"subscript of {c!r} at {at}")
 
     def _comp(self, gens, env, module, emit):
         def rec(i, env2):
@@ -2019,10 +2023,19 @@ class Interp:
                     for kv in self.iterate(a0):
                         if isinstance(kv, Unknown):
                             return Unknown(f"dict({_sym(a0)})")
+                        if not isinstance(kv, (list, tuple, str)):
+                            raise PyRaise(ExcVal("TypeError", ("cannot convert dictionary update sequence element to a sequence",)))
+                        if len(kv) != 2:
+                            raise PyRaise(ExcVal("ValueError", (f"dictionary update sequence element has length {len(kv)}; 2 is required",)))
                         k, v = kv
                         d[k] = v
             d.update(kwargs)
             return d
+        if name == "dict.fromkeys":
+            if isinstance(args[0], Unknown):
+                return Unknown(f"dict.fromkeys({args[0].sym})")
+            val = args[1] if len(args) > 1 else None
+            return {k: val for k in self.iterate(args[0])}
         if name == "range":
             if any(isinstance(a, Unknown) for a in args):
                 return self.fresh("range")
@@ -2364,6 +2377,12 @@ class Interp:
 
     def _method(self, recv, name, args, kwargs):
         """method of a native value"""
+        if name == "__getitem__" and len(args) == 1 and not kwargs and isinstance(recv, (dict, list, tuple, str)):
+            return self._getitem(recv, args[0])          # `key=position.__getitem__`
+        if name == "__contains__" and len(args) == 1 and not kwargs and isinstance(recv, (dict, list, tuple, str, set, frozenset)):
+            return self._contains(recv, args[0])
+        if name == "__len__" and not args and isinstance(recv, (dict, list, tuple, str, set, frozenset)):
+            return len(recv)
         if isinstance(recv, Obj) and recv.cls is not None and name in ("_replace", "_asdict"):
             if name == "_asdict":
                 return dict(recv.fields)
